@@ -802,7 +802,171 @@ pub fn main(opts: &Opts) {
         );
         sink.add("longsession.requests", SENT_TOTAL.load(std::sync::atomic::Ordering::SeqCst));
     }
+    // Eager wake-ups: an executor that polls a future INSIDE the `wake()` call that makes it runnable
+    // (on the waking thread, nested in whatever poll caused the wake-up). That is the schedule a second
+    // OS thread produces when it happens to run at exactly the moment a lock is released or a message is
+    // delivered — a window of nanoseconds that the `par` rounds hit once in thousands of rounds — made
+    // deterministic. k pipelined requests, every permutation of reply arrival (k ≤ 3), then the peer
+    // closes: every request whose reply was delivered must resolve to that reply.
+    let replay_eager = opts
+        .replay
+        .as_ref()
+        .map(|p| std::fs::read_to_string(p).unwrap_or_default().contains("case\teager;"))
+        .unwrap_or(false);
+    if replay_eager || (opts.replay.is_none() && !opts.extra.iter().any(|e| e == "only-close")) {
+        for k in 2..=3usize {
+            let mut perms = vec![];
+            heap(&mut (0..k).collect(), k, &mut perms);
+            for perm in perms {
+                for answered in 1..=k {
+                    let case = format!(
+                        "eager;k={k};order={};answered={answered}",
+                        perm.iter().map(|i| i.to_string()).collect::<Vec<_>>().join("")
+                    );
+                    progress(&case);
+                    let res = eager::run(k, &perm, answered);
+                    progress_idle();
+                    let verdict = match res {
+                        Err(e) => format!("violation harness-{}", e.replace(' ', "-")),
+                        Ok(outs) => {
+                            // the first `answered` requests of `perm` got their reply before the close
+                            let mut bad = None;
+                            for (n, &i) in perm.iter().enumerate() {
+                                let want_ok = n < answered;
+                                let o = &outs[i];
+                                if want_ok && *o != format!("ok{}", 100 + i) {
+                                    bad = Some(format!("violation answered-request-{i}-resolves-to-{}", o.split(':').next().unwrap_or("")));
+                                    break;
+                                }
+                                if !want_ok && o.starts_with("ok") {
+                                    bad = Some(format!("violation unanswered-request-{i}-resolves-to-a-value"));
+                                    break;
+                                }
+                            }
+                            bad.unwrap_or_else(|| "ok".to_string())
+                        }
+                    };
+                    sink.direct(&case, verdict);
+                    sink.count("eager.cases");
+                }
+            }
+        }
+    }
     sink.write(opts, "sched");
+}
+
+mod eager {
+    use super::*;
+    use std::{
+        sync::{
+            atomic::{AtomicBool, Ordering},
+            Arc, Mutex,
+        },
+        task::{Context, Poll, Wake, Waker},
+    };
+
+    type Fut = Pin<Box<dyn Future<Output = Result<String, String>> + Send>>;
+
+    struct Slot {
+        fut: Mutex<Option<Fut>>,
+        out: Mutex<Option<String>>,
+        polling: AtomicBool,
+        again: AtomicBool,
+    }
+
+    struct W {
+        slots: Arc<Vec<Slot>>,
+        idx: usize,
+    }
+
+    impl Wake for W {
+        fn wake(self: Arc<Self>) {
+            poll_slot(&self.slots, self.idx);
+        }
+    }
+
+    fn poll_slot(slots: &Arc<Vec<Slot>>, idx: usize) {
+        let s = &slots[idx];
+        if s.polling.swap(true, Ordering::SeqCst) {
+            // woken while it is being polled further up the stack: poll once more afterwards
+            s.again.store(true, Ordering::SeqCst);
+            return;
+        }
+        loop {
+            let f = s.fut.lock().unwrap().take();
+            if let Some(mut f) = f {
+                let waker = Waker::from(Arc::new(W { slots: slots.clone(), idx }));
+                let mut cx = Context::from_waker(&waker);
+                match f.as_mut().poll(&mut cx) {
+                    Poll::Ready(r) => {
+                        *s.out.lock().unwrap() = Some(match r {
+                            Ok(v) => format!("ok{v}"),
+                            Err(e) => format!("err:{e}"),
+                        });
+                    }
+                    Poll::Pending => *s.fut.lock().unwrap() = Some(f),
+                }
+            }
+            if !s.again.swap(false, Ordering::SeqCst) {
+                break;
+            }
+        }
+        s.polling.store(false, Ordering::SeqCst);
+    }
+
+    /// k requests, replies delivered in `perm` order to the first `answered` of them, then close
+    pub fn run(k: usize, perm: &[usize], answered: usize) -> Result<Vec<String>, String> {
+        // session set-up and the sends on an ordinary runtime; the reply futures are then polled by
+        // the eager executor only (no runtime: the in-memory transport and tokio's sync primitives
+        // need none)
+        let rt = tokio::runtime::Builder::new_current_thread().enable_all().build().unwrap();
+        let (peer, futs, ids) = rt.block_on(async {
+            let (t, peer) = mt::new();
+            peer.deliver(mt::hello(&[mt::CAP_BASE10], 4));
+            let mut s = Session::verif_new(t).await.map_err(|e| format!("session: {e}"))?;
+            let mut futs: Vec<Fut> = vec![];
+            for _ in 0..k {
+                let f = s.rpc::<Get, _>(|b| b.finish()).await.map_err(|e| format!("rpc: {e}"))?;
+                futs.push(Box::pin(async move { f.await.map(|v| v.to_string()).map_err(|e| e.to_string()) }));
+            }
+            let ids: Vec<String> = peer.sent()[1..].iter().map(|m| mt::message_id_of(m).unwrap_or_default()).collect();
+            // the session object stays alive inside the futures' shared state; keep it too
+            std::mem::forget(s);
+            Ok::<_, String>((peer, futs, ids))
+        })?;
+        let slots: Arc<Vec<Slot>> = Arc::new(
+            futs.into_iter()
+                .map(|f| Slot {
+                    fut: Mutex::new(Some(f)),
+                    out: Mutex::new(None),
+                    polling: AtomicBool::new(false),
+                    again: AtomicBool::new(false),
+                })
+                .collect(),
+        );
+        // every future gets its first poll, in request order: the first becomes the reader
+        for i in 0..k {
+            poll_slot(&slots, i);
+        }
+        for &i in perm.iter().take(answered) {
+            peer.deliver(format!(
+                "<rpc-reply xmlns=\"{}\" message-id=\"{}\"><data>{}</data></rpc-reply>]]>]]>",
+                mt::BASE_NS,
+                ids[i],
+                100 + i
+            ));
+        }
+        peer.close();
+        // nothing else will ever wake them: give every unfinished future a last poll
+        for _ in 0..3 {
+            for i in 0..k {
+                poll_slot(&slots, i);
+            }
+        }
+        Ok((0..k)
+            .map(|i| slots[i].out.lock().unwrap().clone().unwrap_or_else(|| "pending".into()))
+            .collect())
+    }
 }
 
 static SENT_TOTAL: std::sync::atomic::AtomicU64 = std::sync::atomic::AtomicU64::new(0);
